@@ -512,3 +512,30 @@ Proof.
   - eapply (run_agree D cd cf); [|exact F|exact F']. cbn. discriminate.
   - eapply (run_agree D cd cf); [|exact F|exact F']. cbn. discriminate.
 Qed.
+
+(* C16_early through the judge: a first data frame whose declared length is over a configured limit is judged TooBig as
+   soon as its header is complete -- whatever follows the header, in particular nothing -- and so does the model *)
+Lemma judge_too_big D (cd : codec D) cf d0 b0 b1 r n r1 :
+  rfc_header_bad cf false b0 b1 = false -> 8 <=? b0 mod 16 = false ->
+  (if b1 mod 128 <=? 125 then 0 else if b1 mod 128 =? 126 then 2 else 8) + (if bit b1 7 then 4 else 0) <= lenN r ->
+  rfc_length (b1 mod 128) r = LOk n r1 -> rfc_too_big cf (0 + n) n = true ->
+  rfc_judge D cd cf d0 (b0 :: b1 :: r) = Some ([], VFail VTooBig).
+Proof.
+  intros Hok Hop Hlen ER Hbig. unfold rfc_judge. cbn [judge length]. unfold judge_frame. cbn [j_open j_init].
+  rewrite Hok. cbv zeta.
+  replace (lenN r <? _) with false by (symmetry; apply N.ltb_ge; exact Hlen).
+  rewrite ER, Hop. cbn [negb j_total j_init]. rewrite Hbig. reflexivity.
+Qed.
+
+Theorem early_too_big D (cd : codec D) cf : (forall d, d_data cd d [] = (d, [])) ->
+  forall p d0 b0 b1 r n r1, p <> CLOSED -> bytes_ok (b0 :: b1 :: r) ->
+  rfc_header_bad cf false b0 b1 = false -> 8 <=? b0 mod 16 = false ->
+  (if b1 mod 128 <=? 125 then 0 else if b1 mod 128 =? 126 then 2 else 8) + (if bit b1 7 then 4 else 0) <= lenN r ->
+  rfc_length (b1 mod 128) r = LOk n r1 -> rfc_too_big cf (0 + n) n = true ->
+  exists s' evs, feed D cd cf (init_state D p d0) (b0 :: b1 :: r) = Done D s' evs /\ judged evs = ([], VFail VTooBig).
+Proof.
+  intros d_nil p d0 b0 b1 r n r1 Hp Hb Hok Hop Hlen ER Hbig.
+  destruct (sequence_any_policy D cd cf d_nil p d0 _ Hp Hb) as [s' [evs [res [F [J HJ]]]]].
+  rewrite (judge_too_big D cd cf d0 b0 b1 r n r1 Hok Hop Hlen ER Hbig) in J. injection J as <-.
+  exists s', evs. split; [exact F|exact HJ].
+Qed.
